@@ -320,6 +320,8 @@ func run(c *rig.Ctx) {
 		c.Count("concurrent_cases", 1)
 		c.Case(rig.Hash(uint64(i), r.U64(), 2))
 	})
+
+	failingNeighbour(c)
 }
 
 func main() {
